@@ -112,7 +112,8 @@ func gridArith() []group {
 func gridCompare() []group {
 	var vals []any
 	for _, t := range []string{"0", "1", "-1", "2", "1.5", "9007199254740992", "9007199254740993", "9223372036854775807", "9223372036854775808", "-9223372036854775808", "1e400", "0.1", "-0", "1E2", "100",
-		bigDigits, "-" + bigDigits, "123456789012345678901234567890", bigDigits + ".5", longMantissaE, "-" + longMantissaE, strings.Repeat("9", 300) + "e9", "0." + strings.Repeat("0", 300) + "1e-99", "-5", "-20", "-100", "1E2", "1.5E-3"} {
+		bigDigits, "-" + bigDigits, "123456789012345678901234567890", bigDigits + ".5", longMantissaE, "-" + longMantissaE, strings.Repeat("9", 300) + "e9", "0." + strings.Repeat("0", 300) + "1e-99", "-5", "-20", "-100", "1E2",
+		digits309, "-" + digits309, maxFloatDigits, "1.5E-3"} {
 		vals = append(vals, numReprs(t)...)
 	}
 	for _, s := range []string{"", "a", "ab", "b", "A", "é", "z", "10", "9", "a\u0000"} {
@@ -253,6 +254,19 @@ func gridMethod() []group {
 	ps := []int{1, 2, 3, 5, 15, 16, 17, 308, 309, 1000, 0, 1001, -1}
 	ss := []int{-1000, -309, -308, -2, -1, 0, 1, 2, 15, 308, 309, 1000, 1001, -1001}
 	dvals := []any{float64(0), float64(1), float64(100), float64(123.456), float64(99.99), float64(99.999), float64(-5.5), float64(1e20), float64(1e-7), json.Number("12345.678"), "77.7", int64(42)}
+	// scales at which math.Pow10 is not the double nearest to 10^s (it multiplies two table entries), with operands k * 10^-s
+	for _, sc := range []int{22, 23, 24, 33, 34, 37, 39, 45, 49, 57, 64, 100, 150, 200, 250, 300, 307, -22, -23, -24, -25, -26, -28, -33, -64, -100, -200, -300, -307, -308} {
+		for _, k := range []string{"1", "2", "3", "7", "1.5", "9.99"} {
+			f, _ := strconv.ParseFloat(fmt.Sprintf("%se%d", k, -sc), 64)
+			gs = append(gs, group{fmt.Sprintf("$.decimal(1000,%d)", sc), f, nil}, group{fmt.Sprintf("$.decimal(1000,%d)", sc), json.Number(fmt.Sprintf("%se%d", k, -sc)), nil})
+		}
+	}
+	// the largest doubles at negative scales (rounding up leaves the range), integers beyond 2^53 at negative scales
+	for _, v := range []any{math.MaxFloat64, -math.MaxFloat64, 1.7e308, 1e308, int64(-9007199254750960), int64(9007199254750960), int64(-9223372036854775807), int64(9223372036854775807), int64(-9007199254740993), json.Number("-9007199254750960")} {
+		for _, sc := range []int{-308, -307, -306, -304, -299, -298, -294, -293, -290, -100, -18, -5, -2, -1} {
+			gs = append(gs, group{fmt.Sprintf("$.decimal(1000,%d)", sc), v, nil})
+		}
+	}
 	// scales at which value * 10^scale leaves the float64 range (the value has no digits there: unchanged)
 	for _, v := range []any{1e300, 1e10, 12345.5, float64(2), -1.75, 1e-300, float64(0), 5e-324, json.Number("1e300"), int64(9007199254740993), "1.5e200"} {
 		for _, ps := range [][2]int{{1000, 10}, {1000, 300}, {400, 308}, {1000, 308}, {1000, 307}, {10, -300}, {1000, -308}, {1000, 52}, {1000, 53}} {
@@ -312,6 +326,10 @@ func gridAny() []group {
 		return out
 	}
 	trees = gen(2)
+	// leaves that are json.Numbers, some of them beyond the float64 range (they are scalars all the same)
+	jbig, jneg := json.Number("1e400"), json.Number("-1E+999")
+	trees = append(trees, jbig, []any{jbig}, map[string]any{"a": jbig}, []any{json.Number("1"), jbig, json.Number("2.5"), "x", jneg},
+		map[string]any{"a": jbig, "b": []any{jneg, float64(1)}}, []any{[]any{jbig}, map[string]any{"a": jneg}}, []any{json.Number("12345678901234567890"), json.Number("1.50")})
 	var accs []string
 	for _, a := range []string{".**", ".**{0}", ".**{1}", ".**{2}", ".**{3}", ".**{0 to 1}", ".**{1 to 2}", ".**{2 to 4}", ".**{1 to last}", ".**{0 to last}", ".**{last}", ".**{last to last}", ".**{2 to 1}", ".*", "[*]", ".*.*", "[*][*]", ".*[*]"} {
 		accs = append(accs, a)
